@@ -80,7 +80,9 @@ def h_stat(ctx, mods, shape):
     st.dev.decoder.finish()
 
 
-HARNESSES = {'list': h_list, 'stat': h_stat}
+from .c06 import h_async, h_threads
+
+HARNESSES = {'list': h_list, 'stat': h_stat, 'async': h_async, 'threads': h_threads}
 
 
 def shapes(tier, seed):
@@ -103,4 +105,7 @@ def shapes(tier, seed):
             out.append({'h': 'list', 'impl': impl, 'names': [], 'many': 150 if q else 300, 'wrte_size': ws})
         for nc in ((0, 1, 2) if q else (0, 1, 2, 3)):
             out.append({'h': 'stat', 'impl': impl, 'cuts': nc})
+    # a listing that arrives in several packets while another stream is being read concurrently (a timeout due to K1 is C06's)
+    out.append({'h': 'async', 'ops': [['list', {'names': [1, 1, 1]}], ['streaming_shell', {'lens': [1]}]], 'wrte_size': 24, 'ignore_k1': True, 'max_paths': 200000})
+    out.append({'h': 'threads', 'ops': [['list', {'names': [1, 1]}], ['streaming_shell', {'lens': [1]}]], 'wrte_size': 24, 'preempt': 1, 'yields': False, 'ignore_k1': True, 'max_paths': 200000})
     return out
